@@ -116,6 +116,36 @@ CHECKS = {
             "divergence is a hard error; scope <= 9 (16) cells for the random generators.",
             "bounded-exhaustive enumeration (product explorer) + deviation-bounded environment exploration of scripted random draws",
             "DESIGN.md §6 C20"),
+    "C09": ("The transition is one real ALS sweep: cp_als is re-run with maxiters = 1..K (K=3 quick, 6 thorough) from the same guess "
+            "for every member of a fixed explicit data family (exact rank-1/2, rank-R plus noise, generic, counts with an empty "
+            "slice; as tensor, sptensor, ttensor, sumtensor) x ranks 1-3 x starts (given, random under enumerated seeds, nvecs) x "
+            "dimorders x optdims subsets x fixsigns x printitn x stoptol; a duck-typed recording wrapper around the data logs every "
+            "factor list passed to mttkrp so the normal equations are checked for EVERY mode update; every state is checked for "
+            "normal form, reported fit/residual vs recomputation (squared-residual domain), monotonicity, prefix consistency of "
+            "k vs k+1 sweeps, stopping rule, returned guess, unchanged inputs, and a reference ALS in numpy.",
+            "Trusted: numpy reference ALS and tolerances of DESIGN §4.3; admissibility (unfolding rank, Hadamard-Gram conditioning) "
+            "decided on the reference side; data values are a fixed finite family, not all reals.",
+            TECH_PRODUCT, "DESIGN.md §6 C09"),
+    "C11": ("cp_apr is re-run with maxiters = 1..K from the same explicit guess for mu, pdnr and pqnr over their complete option "
+            "lattices (inner-iteration limit, tolerance, precomputed indices, inexact, L-BFGS memory, printing, stoptime under a "
+            "virtual clock) on a fixed family of count tensors (dense and sparse; empty slice, zero fibre, binary, exact low rank) "
+            "and guesses (positive, zero row, zero weight, seeded random); every returned state is checked for rank/shape, "
+            "non-negativity, reported objective vs entrywise Poisson log-likelihood, KKT list vs sweeps actually performed "
+            "(recorded), iteration limit, improvement over the guess and unchanged inputs.",
+            "Trusted: entrywise log-likelihood reference; virtual clock patched into pyttb.cp_apr. The pqnr abort 'L-BFGS first "
+            "iterate is bad' is a known finding (upstream test expects it); invariants are decided on the pqnr runs that return "
+            "(thousands; a guard fails the run if fewer than 1000 per algorithm return).",
+            TECH_PRODUCT, "DESIGN.md §6 C11"),
+    "C13": ("Samplers: a scripted random source owns numpy.random.uniform/choice/poisson; every draw is a choice point; executions "
+            "with <= 5 draws are enumerated completely, longer ones with <= 2 deviations from each default policy (cycle-zeros, "
+            "cycle-all, constant-cell); subscripts/values/weights/counts are checked against the data.  Stochastic solvers: a "
+            "scripted sampler makes f_est the exact objective; rate/decay/max_fails/max_iters/epoch_iters/loss configurations reach "
+            "18+ fail/success words; trace, best-model, bound and stop-rule invariants.  Reuse: ALL words of <= 3 solves over 4-5 "
+            "problems on one optimizer object are compared bit for bit with the same solve on a fresh object.",
+            "Trusted: ScriptedRandom in mc/props/C13.py (other numpy.random calls raise; replay divergence is a hard error). The "
+            "stratified-sampler length mismatch on a rejection shortfall is a known finding (functional-test-pinned).",
+            "deviation-bounded environment exploration of scripted random draws + bounded-exhaustive enumeration of solver "
+            "configurations and solve histories", "DESIGN.md §6 C13"),
 }
 PENDING = {f"C{i:02d}": "check not built yet in this phase (planned, see DESIGN.md §6)" for i in range(1, 21) if f"C{i:02d}" not in CHECKS}
 NOT_APPLICABLE = {}
